@@ -38,9 +38,9 @@ ANCHORS = ['Binary8Format.float_to_int8', 'MXFPFormat.float_to_int',
            'Bits._gete2m3mxfp', 'Bits._gete2m1mxfp', 'Bits._gete8m0mxfp', 'Bits._getmxint',
            'Bits._getbfloatbe', 'Bits._getbfloatle',
            'scaled_get_fn.<locals>.wrapper', 'scaled_set_fn.<locals>.wrapper', 'scaled_read_fn.<locals>.wrapper']
-ENC_ROUTES = ['kw', 'prop', 'token', 'build', 'build2', 'pack', 'packkw', 'array', 'array-set', 'array-append', 'kw-after-mutated']
+ENC_ROUTES = ['kw', 'prop', 'token', 'build', 'build2', 'pack', 'packkw', 'array', 'array-set', 'array-append', 'kw-after-mutated', 'array-after-equal', 'array-extend-after-equal']
 DEC_ROUTES = ['prop', 'read', 'readlist', 'unpack', 'parse', 'array', 'array-item', 'array-pp', 'array-big']
-S_ENC_ROUTES = ['build', 'array', 'array-set', 'array-append']
+S_ENC_ROUTES = ['build', 'array', 'array-set', 'array-append', 'array-after-equal', 'array-extend-after-equal']
 S_DEC_ROUTES = ['parse', 'read', 'readlist', 'unpack', 'array', 'array-item', 'array-pp', 'array-big']
 REQUIRED_OPS = (['encode:' + r for r in ENC_ROUTES] + ['decode:' + r for r in DEC_ROUTES] +
                 ['scaled-encode:' + r for r in S_ENC_ROUTES] + ['scaled-decode:' + r for r in S_DEC_ROUTES] +
@@ -120,6 +120,15 @@ def lib_encode(route, clsname, fmt, nm, x):
             b = bitstring.pack(f'{nm}=v', v=x)
         elif route == 'array':
             b = Array(nm, [x]).data
+        elif route in ('array-after-equal', 'array-extend-after-equal'):
+            # the value as the last of several given at once, after one that compares equal to it (the other zero for a zero, itself otherwise)
+            first = -x if isinstance(x, float) and x == 0 else x
+            if route == 'array-after-equal':
+                a = Array(nm, [first, x, first, x])
+            else:
+                a = Array(nm)
+                a.extend(iter([first, first, x]))
+            b = a.data[-nb:]
         elif route == 'array-set':
             a = Array(nm, 1)
             a[0] = x
@@ -488,6 +497,22 @@ def judge_sdec(ctx, c):
             ctx.mismatch(f'C11|scaled-decode:{route}|{fmt}:{value_class(v)}/scale-{sclass}|{shape}',
                          dict(c, lo=code, hi=code + 1),
                          f'{c["nm"]} scale={scale!r} code {code:#x} route={route}: got {got!r} expected {exp!r}')
+        # neighbours of the same format with different scales (and none) in ONE format list: every item is read with its own scale
+        if route in ('unpack', 'readlist', 'read') and len(codes) >= 1:
+            four = [codes[i % len(codes)] for i in range(4)]
+            dts = [d[1], Dtype(c['nm'], scale=scale * 2), Dtype(c['nm']), d[1]]
+            scs = [scale, scale * 2, 1, scale]
+            whole = CLASSES[c['cls']](bin=''.join(format(k, f'0{codec.nbits}b') for k in four))
+            mixed = call(lambda: whole.unpack(dts) if route == 'unpack' else
+                         CLASSES[c['cls'] if c['cls'] in util.STREAMS else 'ConstBitStream'](whole).readlist(dts) if route == 'readlist' else
+                         CLASSES[c['cls'] if c['cls'] in util.STREAMS else 'BitStream'](whole).peeklist(dts))
+            ctx.op('scaled-decode:mixed-scales-in-one-list', outcome(mixed))
+            wantm = [mf.to_float(codec.decode(k)) * sc for k, sc in zip(four, scs)]
+            if mixed[0] != 'ok' or len(mixed[1]) != 4 or not all(same_number(w, g) for w, g in zip(wantm, mixed[1])):
+                ctx.mismatch(f'C11|scaled-decode:mixed-scales-in-one-list|{fmt}|{"raised:" + type(mixed[1]).__name__ if mixed[0] == "exc" else "value"}', c,
+                             f'{c["nm"]} scales {scs} codes {four}: got {mixed[1]!r:.100} expected {wantm!r:.100}')
+            else:
+                ctx.ok(f'{fmt}|sdec-mixed|{route}', True)
         # ... and the plain format is still plain afterwards, also after a scaled Dtype was asked for FROM the plain Dtype object
         plain = Dtype(c['nm'])
         call(lambda: Dtype(plain, scale=scale))
